@@ -117,26 +117,26 @@ func (g *vfGen) htmlInputs(n int) [][]byte {
 	pro := []string{"", "<!DOCTYPE html>", "<html><head>", "<!-- <meta charset=fake> -->", "<title><meta charset=fake></title>", "<script>var a='<meta charset=fake>'</script>", " \n\t", "\xef\xbb\xbf", "\xff\xfe"}
 	var out [][]byte
 	for i := 0; i < n; i++ {
-		l := labels[g.rng.Intn(len(labels))]
-		p := pro[g.rng.Intn(len(pro))]
+		l := labels[g.intn(len(labels))]
+		p := pro[g.intn(len(pro))]
 		var decl string
-		switch g.rng.Intn(6) {
+		switch g.intn(6) {
 		case 0:
 			decl = fmt.Sprintf("<meta charset=%s>", l)
 		case 1:
 			decl = fmt.Sprintf("<META CHARSET=\"%s\" />", l)
 		case 2:
-			decl = fmt.Sprintf("<meta http-equiv=\"Content-Type\" content=\"%s\">", fmt.Sprintf(contents[g.rng.Intn(len(contents))], l))
+			decl = fmt.Sprintf("<meta http-equiv=\"Content-Type\" content=\"%s\">", fmt.Sprintf(contents[g.intn(len(contents))], l))
 		case 3:
-			decl = fmt.Sprintf("<meta content='%s' http-equiv=content-type>", strings.ReplaceAll(fmt.Sprintf(contents[g.rng.Intn(len(contents))], l), "%!(EXTRA string="+l+")", ""))
+			decl = fmt.Sprintf("<meta content='%s' http-equiv=content-type>", strings.ReplaceAll(fmt.Sprintf(contents[g.intn(len(contents))], l), "%!(EXTRA string="+l+")", ""))
 		case 4:
-			decl = fmt.Sprintf("<meta content=\"%s\">", fmt.Sprintf(contents[g.rng.Intn(len(contents))], l))
+			decl = fmt.Sprintf("<meta content=\"%s\">", fmt.Sprintf(contents[g.intn(len(contents))], l))
 		default:
 			decl = fmt.Sprintf("<meta name=x content=y><meta charset='%s'>", l)
 		}
 		decl = strings.ReplaceAll(decl, "%!(EXTRA string="+l+")", "")
 		doc := p + "<html><head>" + decl + "</head><body>h\xe9llo</body></html>"
-		if g.rng.Intn(3) == 0 {
+		if g.intn(3) == 0 {
 			doc = p + decl
 		}
 		out = append(out, []byte(doc))
@@ -159,7 +159,7 @@ func (g *vfGen) genC01() {
 		}
 		if len(c) > 96 {
 			for i := 0; i < g.pick(3, 30); i++ {
-				n := g.rng.Intn(len(c))
+				n := g.intn(len(c))
 				g.emit(vfOp("walk", c, n))
 			}
 		}
@@ -167,7 +167,7 @@ func (g *vfGen) genC01() {
 	// 2. crafted headers with hostile length fields
 	for _, h := range g.attackHeaders() {
 		g.emit(vfOp("walk", h, 0))
-		if g.thorough || g.rng.Intn(4) == 0 {
+		if g.thorough || g.intn(4) == 0 {
 			g.emit(vfOp("walk", h, len(h)))
 			g.emit(vfOp("walk", h, len(h)-1))
 		}
@@ -186,27 +186,27 @@ func (g *vfGen) genC01() {
 	corpus := vfCorpus()
 	for i := 0; i < g.pick(1500, 40000); i++ {
 		var b []byte
-		if g.rng.Intn(3) == 0 {
-			b = g.bytes(g.rng.Intn(600))
+		if g.intn(3) == 0 {
+			b = g.bytes(g.intn(600))
 		} else {
-			c := corpus[g.rng.Intn(len(corpus))]
+			c := corpus[g.intn(len(corpus))]
 			if len(c) > 5000 {
 				c = c[:5000]
 			}
 			b = append([]byte{}, c...)
-			for k := 0; k < 1+g.rng.Intn(4) && len(b) > 0; k++ {
-				switch g.rng.Intn(3) {
+			for k := 0; k < 1+g.intn(4) && len(b) > 0; k++ {
+				switch g.intn(3) {
 				case 0:
-					b[g.rng.Intn(len(b))] = byte(g.rng.Intn(256))
+					b[g.intn(len(b))] = byte(g.intn(256))
 				case 1:
-					j := g.rng.Intn(len(b))
+					j := g.intn(len(b))
 					b = append(b[:j], b[j+1:]...)
 				default:
-					j := g.rng.Intn(len(b) + 1)
-					b = append(b[:j], append([]byte{byte(g.rng.Intn(256))}, b[j:]...)...)
+					j := g.intn(len(b) + 1)
+					b = append(b[:j], append([]byte{byte(g.intn(256))}, b[j:]...)...)
 				}
 			}
 		}
-		g.emit(vfOp("walk", b, []uint32{0, 0, 3072, uint32(len(b)), uint32(len(b) / 2)}[g.rng.Intn(5)]))
+		g.emit(vfOp("walk", b, []uint32{0, 0, 3072, uint32(len(b)), uint32(len(b) / 2)}[g.intn(5)]))
 	}
 }
